@@ -59,6 +59,10 @@ func verif_Acquire(pm *Manager, name string, port int, q int) {
 		verif.Ensures(verif.Has(pm.usedPorts, realPort), "ok_used_after")
 		verif.Ensures(port == 0 || realPort == port, "ok_fixed_port_honoured")
 		verif.Ensures(realPort >= MinPort && realPort <= MaxPort, "ok_in_range")
+		// "a proxy that asks for a server-chosen port gets its previous port back":
+		// whichever way the port was obtained (fixed, remembered or chosen), the
+		// name remembers it, and the owner record of the port is that memory
+		verif.Ensures(verif.Has(pm.reservedPorts, name) && pm.reservedPorts[name] != nil && pm.reservedPorts[name] == pm.usedPorts[realPort] && pm.reservedPorts[name].Port == realPort, "ok_name_remembers_its_port")
 		if q != realPort {
 			verif.Ensures(verif.Has(pm.freePorts, q) == verif.Has(free0, q), "ok_frame_free")
 			verif.Ensures(verif.Has(pm.usedPorts, q) == verif.Has(used0, q), "ok_frame_used")
